@@ -206,6 +206,9 @@ func (p *pogsRun) valueCase(i uint64, rng *common.RNG, embed bool) {
 	}
 	input := map[string]interface{}{"type": m.name, "value": dumpGo(cl, 0)}
 	rec.Count("gotype_"+m.name, 1)
+	if strings.HasPrefix(m.name, "E3") || strings.HasPrefix(m.name, "E4") {
+		rec.Count("embed_depth3plus_values", 1)
+	}
 
 	// 1. Insert the clean value.
 	msgA, rootA, err, pn := insertInto(m, m.size, cl.Interface())
@@ -482,6 +485,9 @@ func (p *pogsRun) messageCase(i uint64, rng *common.RNG, embed bool) {
 	}
 	input := map[string]interface{}{"type": m.name, "shape": sh.name, "segment": common.Hex(msgBytes(b.msg)), "struct_size": fmt.Sprint(s.Size()), "accessors": truncS(v.shortString(), 600)}
 	rec.Count("gotype_"+m.name, 1)
+	if strings.HasPrefix(m.name, "E3") || strings.HasPrefix(m.name, "E4") {
+		rec.Count("embed_depth3plus_messages", 1)
+	}
 	rec.Count("shape_"+sh.name, 1)
 	for mm, n := range b.members {
 		rec.Count("zmember_"+mm, int64(n))
